@@ -1,3 +1,6 @@
 #!/bin/sh
-# repository test-suite with the verification guard OFF (no -tags verif, no overlay): must match BASELINE.json
-cd /repo && GOFLAGS=-mod=mod GOPROXY=off go test -vet=off -count=1 -timeout 25m ./...
+# repository test-suite with the verification guard OFF (no -tags verif, no overlay, nothing from /verif): the same command
+# as BASELINE.json's (go test -json on stdout). Packages under pkg/koordlet that need libpfm do not build in this sandbox -
+# as in the recorded baseline, whose 5268 stable tests do not include them - so the exit status is non-zero by construction;
+# compare the per-test results (all 5268 stable tests pass with every fix: commit applied, checked 2026-09-26).
+cd /repo && GOFLAGS=-mod=mod GOPROXY=off go test -json -vet=off -count=1 -timeout 25m ./...
